@@ -41,11 +41,11 @@ ES = "optimism.EquationSolver"
 def run(ctx):
     for m in (NS, OBJ, MI, AFS, ES):
         ctx.need_module(m)
-    d1(ctx)
-    d2(ctx)
-    d3(ctx)
-    d4(ctx)
-    d5(ctx)
+    ctx.guard(d1, ctx)
+    ctx.guard(d2, ctx)
+    ctx.guard(d3, ctx)
+    ctx.guard(d4, ctx)
+    ctx.guard(d5, ctx)
     ctx.trust("jax.custom_vjp protocol: fwd returns (out, residuals); bwd(nondiff..., residuals, cotangent) returns a tuple "
               "with one entry per differentiable primal argument")
     ctx.trust("preconditioned CG started at z=0 with first direction -M r minimises r.z + 1/2 z.H z, i.e. z = -H^-1 r")
